@@ -35,6 +35,8 @@ type Case struct {
 	Batches       []int  `json:"batches,omitempty"`
 	Drop          int    `json:"drop"` // wire: -1 none; otherwise the client disconnects after this many items
 	DropQuiet     bool   `json:"drop_quiet,omitempty"`
+	Unix          bool   `json:"unix,omitempty"` // wire mode over real unix sockets
+	Poll          bool   `json:"poll,omitempty"` // ... against a poll-mode server
 	Servers       int    `json:"servers,omitempty"`
 }
 
@@ -131,6 +133,10 @@ func gen(t *rapid.T) Case {
 	} else {
 		c.Mode = "wire"
 		genWire(t, &c)
+		if rapid.IntRange(0, 3).Draw(t, "unix") == 0 {
+			c.Unix = true
+			c.Poll = rapid.Bool().Draw(t, "poll")
+		}
 	}
 	return c
 }
@@ -204,27 +210,56 @@ func runWire(c Case) kit.Outcome {
 		}
 	}
 	_ = streamMsgs
-	srv := kit.NewServer(env, c.SrvPipelining, c.SrvDirect)
-	link := kit.NewFrameLink()
-	link.S.SetHold(true)
-	done := kit.ServeLink(srv, link, c.Enc, c.SrvDirect)
-	cli := kit.NewScriptClient(link, c.Enc, env.Tick)
+	var link *kit.FrameLink
+	var cli *kit.ScriptClient
+	var done chan struct{}
 	closed := false
-	defer func() {
-		env.OpenAll()
-		if !closed {
-			link.C.Close()
+	if c.Unix {
+		// real unix sockets, optionally a poll-mode server: the session's own Env replaces env
+		m := kit.Modes{Enc: c.Enc, SrvPipelining: c.SrvPipelining, SrvDirect: c.SrvDirect, Link: "unix", Poll: c.Poll}
+		sess, err := kit.NewSession(m)
+		if err != nil {
+			return kit.Undecided("%v", err)
 		}
-		select {
-		case <-done:
-		case <-time.After(5 * time.Second):
+		sess.Env.StreamFn = env.StreamFn
+		env = sess.Env
+		defer sess.Close()
+		rc, err := kit.DialRaw("unix", sess.Addr)
+		if err != nil {
+			return kit.Undecided("dial: %v", err)
 		}
-	}()
+		cli = kit.NewScriptClientOn(rc, c.Enc, env.Tick)
+		done = make(chan struct{})
+		close(done) // a unix-socket server's per-connection teardown cannot be awaited from outside
+		defer func() {
+			env.OpenAll()
+			if !closed {
+				cli.Close()
+			}
+		}()
+	} else {
+		srv := kit.NewServer(env, c.SrvPipelining, c.SrvDirect)
+		link = kit.NewFrameLink()
+		link.S.SetHold(true)
+		done = kit.ServeLink(srv, link, c.Enc, c.SrvDirect)
+		cli = kit.NewScriptClient(link, c.Enc, env.Tick)
+		defer func() {
+			env.OpenAll()
+			if !closed {
+				link.C.Close()
+			}
+			select {
+			case <-done:
+			case <-time.After(5 * time.Second):
+			}
+		}()
+	}
 	limit := len(c.Items)
 	if c.Drop > 0 {
 		limit = c.Drop
 	}
 	var frames []*sent
+	var hdrs []kit.ReqHeader
 	streamSeq := []uint64{}
 	streamClosed := map[int]bool{}
 	var gated []uint64
@@ -268,13 +303,16 @@ func runWire(c Case) kit.Outcome {
 			h.Seq = s.seq
 			h.Upgrade, s.expects = []byte{kit.RefUpgrade(true, true, false, kit.StreamClose)}, 1
 		}
-		if err := cli.Send(h); err != nil {
-			return kit.Undecided("send: %v", err)
+		if !c.Unix {
+			if err := cli.Send(h); err != nil {
+				return kit.Undecided("send: %v", err)
+			}
 		}
+		hdrs = append(hdrs, h)
 		frames = append(frames, s)
 	}
-	// release in batches
-	left, bi := len(frames), 0
+	// deliver in batches: released from the held frame link, or one write call per batch
+	left, bi, off := len(frames), 0, 0
 	for left > 0 {
 		b := 1
 		if len(c.Batches) > 0 {
@@ -283,6 +321,14 @@ func runWire(c Case) kit.Outcome {
 		}
 		if b > left {
 			b = left
+		}
+		if c.Unix {
+			if err := cli.SendBatch(hdrs[off : off+b]); err != nil {
+				return kit.Undecided("send: %v", err)
+			}
+			off += b
+			left -= b
+			continue
 		}
 		link.S.Release(b)
 		left -= b
@@ -323,13 +369,16 @@ func runWire(c Case) kit.Outcome {
 			cli.WaitResponses(ungatedExpected, 2*time.Second)
 		}
 		closed = true
-		link.C.Close()
+		cli.Close()
 		time.Sleep(200 * time.Microsecond)
 		env.OpenAll()
 		select {
 		case <-done:
 		case <-time.After(bound):
 			return kit.Undecided("ServeCodec did not return within %v after the client disconnected", bound)
+		}
+		if c.Unix {
+			time.Sleep(5 * time.Millisecond) // the server side winds down asynchronously
 		}
 	}
 	// quiescence: every started handler finishes
@@ -453,6 +502,12 @@ func runWire(c Case) kit.Outcome {
 		}
 	}
 	out := kit.Outcome{Counters: map[string]int{"frames": len(frames), "executions": len(log)}, Classes: []string{"wire", "enc=" + c.Enc}}
+	if c.Unix {
+		out.Classes = append(out.Classes, "unix-sockets")
+	}
+	if c.Poll {
+		out.Classes = append(out.Classes, "poll")
+	}
 	mixed := len(shapes) >= 2 || kinds["ping"] || kinds["sopen"]
 	if mixed && (maxBatch > 1 || c.Drop > 0) {
 		out.Nontrivial = true
@@ -675,7 +730,7 @@ var prop = kit.Property[Case]{
 	Level: "exploration",
 	Rule:  "rapid-generated cases of two kinds. Wire: a scripted client writes 1-200 request frames built with the reference encoder (unary calls to all four handler shapes, some gated; failing handlers; unknown methods; pings; stream open/data/close) to a real Server (4 header encoders x multiplexing/pipelining x direct/async IO), released in drawn batches of 1..64 frames, optionally disconnecting after item j (quietly or with requests queued and executing). Oracle from the execution log and the recorded response frames: executions(id)==1 for every answered request, <=1 for every sent one, 0 for pings/unknown/unsent ids, logged argument digest == sent; responses per sequence number <=1 and ==1 on a connection that stayed up; stream handler invoked once per open, one echo per stream message. Transport: calls of every form through a real Transport and Client against 1-2 servers that the history kills and restarts; executions(id)<=1 always and ==1 for every successful call. Non-trivial (wire): >= 2 handler shapes or a ping or stream traffic, and (a batch > 1 or a drop point); (transport): a kill with both failed and successful calls; distinct by SHA-1 of the case.",
 	Assumptions: []string{
-		"poll-mode servers need real sockets and are exercised by the real-socket variants, not here",
+		"a quarter of the wire cases run over real unix sockets (half of them against a poll-mode server) with one write call per batch; the rest over held frame links",
 		"the scripted client speaks the documented wire format (reference encoder)",
 	},
 	Gen: gen,
